@@ -12,7 +12,7 @@ fn dgram(len: usize) -> Datagram {
 
 // @harness datagrams_drop_oversized_accounting props=C16 tier=thorough kind=bounded bound="2 queued datagrams of at most 7 bytes each, limit at most 8" timeout=600 fn="DatagramState::drop_oversized" desc="after drop_oversized(max) exactly the datagrams with len < max remain, in order, outgoing_total is the sum of their lengths, and the result says whether anything was dropped"
 #[cfg_attr(kani, kani::proof)]
-#[cfg_attr(kani, kani::unwind(4))]
+#[cfg_attr(kani, kani::unwind(8))]
 #[cfg_attr(verif_replay, test)]
 fn datagrams_drop_oversized_accounting() {
     let n: usize = vk::any();
